@@ -531,7 +531,7 @@ def gen(out, tier, seed):
     bfs = list(r.cases())
     if len({json.dumps(c, sort_keys=True) for c in bfs}) != len(bfs):
         raise vlib.ToolError("Layout BFS printed a configuration twice (builder not canonical)")
-    want_sim, procs, num = (90, 1, 5) if tier == "quick" else (3200, 4, 34)
+    want_sim, procs, num = (90, 1, 5) if tier == "quick" else (2600, 4, 30)
     sims = []
 
     def sim(k):
